@@ -96,6 +96,13 @@ CLAIMED = {
         "Trusted: reference codec, recording stubs, hook H5 (moment a fragment reaches the application layer), tokio paused clock. Readings of the property built into the automaton from the start (DESIGN.md section 6 C17): a step whose own response shows the restart indication was executed by the restarted outstation and is not demanded again; a restart indication while the clear-restart task is still outstanding adds nothing; an outstation that rejects enable/disable unsolicited with IIN2 is not retried; a clear-restart answered with the bit still set counts as a failure. Unsolicited responses sent or confirmed within one round trip of a disconnect are don't-care. The scripted outstation clears events-available/overflow once the events are read, like a real one (otherwise the master is legitimately driven round in circles).",
         "DESIGN.md section 6 C17",
     ),
+    "C19": (
+        "S-MAST",
+        "deterministic simulation: seeded search over sets of 1..4 associations on one channel, polls with arbitrary periods, recognisable user requests submitted at arbitrary virtual times, prompt/late/missing responses, poll demand/removal, keep-alive settings and enable/disable/cut toggles against the real master over a simulated TCP seam in virtual time; oracle = schedule monitor over the virtual timestamps of every request written and every user call, plus the executor's poll count of the master task",
+        "Seeded exploration (not exhaustive): every user request is a DIRECT_OPERATE with a unique index and every poll of an association has its own class set, so each request on the wire is attributed. The monitor requires: (S1) no task starts and no link status request is written while another request is unanswered and has not timed out; (S2) user requests of one association go out in submission order; (S3) nothing but a user request starts while a user request submitted earlier (to any association) is waiting; (S4) a poll starts no earlier than its previous completion (or its addition) + period unless demanded; (S5) a poll that became due on an idle, connected channel starts within 2 ms, and none is left due for more than a second at the end; (S6) no association is served twice in a row while a user request or a due poll of another association has been waiting since before the first of the two turns; (S7) a keep-alive link status request is written only to an association with keep-alive configured and not before the configured silence has elapsed since the last frame the master took from that outstation (hook H5); (S8) the master task is polled at most 200 times per recorded event (it sleeps until the earliest deadline), and the kernel's spin detector (20000 polls without virtual time or input advancing) is a violation.",
+        "Trusted: reference codec, recording stubs, hook H5 for the moment a fragment or link-layer frame reaches the master's application layer, tokio paused clock. The due time of a poll is unknown (rules S4-S6 suspended for it) after a poll of its association ran whose request never reached the outstation (connection cut), until it runs again. Ties are avoided by only counting user requests submitted in an earlier millisecond.",
+        "DESIGN.md section 6 C19",
+    ),
     "C04": (
         "S-OUT",
         "deterministic simulation: seeded search over request histories, virtual-time advances around the select timeout, retransmissions, reconnects/pre-emption and handler answers against the real outstation task; oracle = the property's predicate evaluated on the harness' own record of the history",
@@ -150,7 +157,7 @@ def main():
         "engines": [
             {"name": "S-LINK", "path": "harness/props/c06.rs", "serves_properties": ["C06", "C07"], "kind_free_text": "real link reader/parser/formatter (C06) and real link Layer (C07 link scenario) over a simulated physical layer; seeded streams, faults and read plans"},
             {"name": "S-OUT", "path": "harness/sout.rs", "serves_properties": ["C03", "C04", "C05", "C07", "C11", "C12", "C13", "C14"], "kind_free_text": "real OutstationTask (session, database, event buffer, real transport/link) run by the real ServerTask over simulated connections; scripted master peer using the reference codec; recording stubs for user callbacks; user transactions injected at database lock points (H4)"},
-            {"name": "S-MAST", "path": "harness/smast.rs", "serves_properties": ["C15", "C16", "C17"], "kind_free_text": "real MasterTask run by the real tcp ClientTask over a simulated network (H3) with latency and chunking; scripted outstation(s) built on the reference codec with a queue of reply policies; recording stubs for ReadHandler/AssociationHandler/AssociationInformation/Listener; user requests issued by simulated tasks through the public async API"},
+            {"name": "S-MAST", "path": "harness/smast.rs", "serves_properties": ["C15", "C16", "C17", "C19"], "kind_free_text": "real MasterTask run by the real tcp ClientTask over a simulated network (H3) with latency and chunking; scripted outstation(s) built on the reference codec with a queue of reply policies; recording stubs for ReadHandler/AssociationHandler/AssociationInformation/Listener; user requests issued by simulated tasks through the public async API"},
             {"name": "S-TRANS", "path": "harness/props/c08.rs", "serves_properties": ["C08"], "kind_free_text": "two real transport writers -> frame-level fault stage -> real transport reader (link layer + assembler) over simulated phys"},
         ],
         "checks": checks,
